@@ -123,7 +123,7 @@ def judge(sc, c):
     for M in ("m", "m2"):
         lst = []
         for f in rx[M]["frames"]:
-            if f.msg_type == W.MT_FAILED_MESSAGE and int(f.send_time) not in sc.pubs:
+            if f.msg_type == W.MT_FAILED_MESSAGE and f.pid not in sc.pubs:
                 if len(f.payload) != 64 or f.src_mod != 0:
                     V.append({"mech": "notice_malformed", "detail": f"{M}: {f.brief()}"})
                     continue
@@ -154,7 +154,7 @@ def judge(sc, c):
             first = p is pubs[0]
             dead = i in c["rst"]
             nw = i in c["nw"]
-            copies = sum(1 for f in rx[L]["frames"] if int(f.send_time) == p["id"] and f.send_time == p["id"])
+            copies = sum(1 for f in rx[L]["frames"] if f.pid == p["id"])
             named = [n for n in notices[watcher] if n["dest_mod_id"] == cs.mod_id and n["h_send_time"] == float(p["id"])]
             if not first and dead:
                 continue  # removed after the first publication discovered it (or never discovered: see below)
